@@ -48,6 +48,40 @@ class Node {
     public int k;
     public constructor(int k) -> Node { this.k = k; this.next = null; }
 }
+class DNode {
+    public DNode up;
+    public DNode down;
+    public P load;
+    public int k;
+    public constructor(int k) -> DNode { this.k = k; this.up = null; this.down = null; this.load = new P(k); }
+}
+class Crate {
+    public P label;
+    public P cargo;
+    public constructor(P l, P c) -> Crate { this.label = l; this.cargo = c; }
+}
+function chain(int n) -> DNode {
+    DNode root = new DNode(0);
+    DNode cur = root;
+    int i = 1;
+    while (i <= n) {
+        DNode nx = new DNode(i);
+        nx.up = cur;
+        cur.down = nx;
+        cur = nx;
+        i = i + 1;
+    }
+    return root;
+}
+function walk(DNode d) -> int {
+    int s = 0;
+    DNode cur = d;
+    while (cur != null) {
+        s = s * 10 + cur.load.v + cur.k;
+        cur = cur.down;
+    }
+    return s;
+}
 function churn(int n) -> int {
     int i = 0;
     while (i < n) {
@@ -84,6 +118,12 @@ STMTS = [
     "echo(mkReg({a}).val() + churn({n}));",
     "Reg g{u} = mkReg({a}); echo(churn({n})); echo(g{u}.val()); destroy g{u};",
     "P d{u} = new P({a}); destroy d{u}; echo(churn({n}));",
+    # objects with several reference fields: back links to already visited parents before the forward link, a shared first field
+    "DNode c{u} = chain({k}); echo(churn({n})); echo(walk(c{u}));",
+    "echo(walk(chain({k})) + churn({n}));",
+    "DNode c{u} = chain({k}); echo(churn({n})); echo(walk(c{u}.down)); destroy c{u}; echo(churn({n}));",
+    "P lab{u} = new P({a}); Crate cr{u} = new Crate(lab{u}, new P({b})); echo(churn({n})); echo(cr{u}.cargo.v + cr{u}.label.v);",
+    "P lab{u} = new P({a}); echo(use(new Crate(lab{u}, new P({b})).cargo, churn({n})));",
 ]
 ERR_STMT = "P e{u} = new P({a}); P nul{u} = null; echo(churn({n})); echo(nul{u}.v);"
 
